@@ -13,10 +13,14 @@ Inductive item : Type :=
 | Ch (c : Z)                       (* basic character (code point) *)
 | Sp (i : Z)                       (* special character 0..15 *)
 | Ext (standin : Z) (grp i : Z)    (* stand-in basic character followed by extended character (group 0/1, 0..31) *)
-| MidItalic | MidPlain             (* mid-row codes: italics on / plain white *)
+| Mid (a : Z)                      (* mid-row code 0..15: colours 0,2,..,12 (+1 underline), 14 italics, 15 italics underline *)
 | Bs.                              (* backspace *)
 
-Record row : Type := mkRow { rw_row : Z; rw_indent : Z; rw_tab : Z; rw_ital : bool; rw_items : list item }.
+(* rw_style: the attribute bits of the preamble address code: at indent 0 the full attribute 0..15 (colour x underline,
+   14 italics, 15 italics underline); at an indent > 0 only the underline bit (0 / 1) exists *)
+Record row : Type := mkRow { rw_row : Z; rw_indent : Z; rw_tab : Z; rw_style : Z; rw_items : list item }.
+Definition is_italic_attr (a : Z) : bool := (a =? 14) || (a =? 15).
+Definition rw_ital (r : row) : bool := (rw_indent r =? 0) && is_italic_attr (rw_style r).
 Definition load : Type := list row.
 Record program : Type := mkProg { pg_doubled : bool; pg_loads : list load }.
 
@@ -30,8 +34,7 @@ Definition toks_of_item (it : item) : list tok :=
   | Ch c => [TCh c]
   | Sp i => [TCode (special_word i)]
   | Ext s g i => [TCh s; TCode (ext_word g i)]
-  | MidItalic => [TCode (midrow_word 14)]
-  | MidPlain => [TCode (midrow_word 0)]
+  | Mid a => [TCode (midrow_word a)]
   | Bs => [TCode (ctrl_word 33)]
   end.
 
@@ -51,7 +54,7 @@ Fixpoint pack (d : bool) (ts : list tok) (pend : option Z) : list Z :=
   end.
 
 Definition pac_attr (r : row) : Z :=
-  if rw_ital r then 14 else if rw_indent r =? 0 then 0 else 16 + (rw_indent r / 4) * 2.
+  if rw_indent r =? 0 then rw_style r else 16 + (rw_indent r / 4) * 2 + rw_style r mod 2.
 Definition pac_unit (d : bool) (r : row) : list Z :=
   let u := pac_word (rw_row r) (pac_attr r) :: (if 0 <? rw_tab r then [tab_word (rw_tab r)] else []) in
   if d then u ++ u else u.
@@ -73,8 +76,7 @@ Fixpoint row_cells (its : list item) (acc : list cell) (ital : bool) : list cell
   | Ch c :: t => row_cells t (acc ++ [Cell c ital]) ital
   | Sp i :: t => row_cells t (acc ++ [Cell (nth (Z.to_nat i) special_608 0) ital]) ital
   | Ext _ g i :: t => row_cells t (acc ++ [Cell (ext_char g i) ital]) ital     (* replaces its stand-in *)
-  | MidItalic :: t => row_cells t (acc ++ [Opt]) true
-  | MidPlain :: t => row_cells t (acc ++ [Opt]) false
+  | Mid a :: t => row_cells t (acc ++ [Opt]) (is_italic_attr a)      (* any non-italic mid-row code ends italics *)
   | Bs :: t => row_cells t (removelast acc) ital
   end.
 Definition cells_of (r : row) : list cell := row_cells (rw_items r) [] (rw_ital r).
@@ -222,8 +224,8 @@ Fixpoint items_ok (its : list item) (prev : option item) : bool :=
        | Sp i => (0 <=? i) && (i <? 16) && negb (i =? 9)
                  && negb (match prev with Some (Sp j) => i =? j | _ => false end)
        | Ext s g i => is_basic s && negb (s =? 32) && (0 <=? g) && (g <=? 1) && (0 <=? i) && (i <? 32)
-       | MidItalic | MidPlain => match t with Ch 32 :: _ => false | _ => true end
-       | Bs => match prev with Some (Ch _) => true | _ => false end
+       | Mid a => (0 <=? a) && (a <? 16) && match t with Ch 32 :: _ => false | _ => true end
+       | Bs => match prev with Some (Ch _) | Some (Sp _) | Some (Ext _ _ _) => true | _ => false end
        end) && items_ok t (Some it)
   end.
 
@@ -232,7 +234,7 @@ Definition cell_vis (c : cell) : bool := match c with Cell ch _ => negb (ch =? 3
 Definition row_ok (r : row) : bool :=
   let cs := cells_of r in
   (1 <=? rw_row r) && (rw_row r <=? 15) && mem (rw_indent r) indents_608 && (0 <=? rw_tab r) && (rw_tab r <=? 3)
-  && (negb (rw_ital r) || (rw_indent r =? 0))
+  && (0 <=? rw_style r) && (rw_style r <? 16) && ((rw_indent r =? 0) || (rw_style r <=? 1))
   && items_ok (rw_items r) None
   && existsb cell_vis cs
   && negb (match cs with c :: _ => cell_space c | [] => true end)
@@ -245,7 +247,7 @@ Fixpoint distinct (l : list Z) : bool :=
 (* a mid-row code at the very start of a row makes the reader append a blank to the text transmitted before it; after
    a row that already fills its 32 cells this trips the length check, so that shape is outside the domain (counted) *)
 Definition starts_with_mid (r : row) : bool :=
-  match rw_items r with MidItalic :: _ | MidPlain :: _ => true | _ => false end.
+  match rw_items r with Mid _ :: _ => true | _ => false end.
 Fixpoint no_mid_after_full (l : load) : bool :=
   match l with
   | r :: ((r' :: _) as t) =>
@@ -264,7 +266,7 @@ Fixpoint loads_independent (ls : list load) (prev_last : option Z) : bool :=
   | [] => true
   | l :: t =>
       let first := match l with r :: _ => rw_row r | [] => 0 end in
-      let lastr := rw_row (last l (mkRow 0 0 0 false [])) in
+      let lastr := rw_row (last l (mkRow 0 0 0 0 [])) in
       (match prev_last with Some p => negb ((first =? p) || (first =? p + 1)) | None => true end)
       && loads_independent t (Some lastr)
   end.
